@@ -521,3 +521,40 @@ pub fn fam_f(body: Body, thorough: bool) -> Vec<Program> {
 	}
 	out
 }
+
+/// Family N3 (thorough): every multiset of three shapes from a small nested catalogue, one acquisition per thread.
+pub fn fam_triples(body: Body) -> Vec<Program> {
+	use Kind::*;
+	let r = |i| Spec::R(i);
+	let c = |k, v: Vec<Spec>| Spec::Coll(k, v);
+	let specs: Vec<Spec> = vec![
+		c(Boxed, vec![r(2), r(0)]),
+		c(Retry, vec![r(1), r(2)]),
+		c(Ref, vec![c(Retry, vec![r(1), r(0)]), r(2)]),
+		c(Retry, vec![r(0), c(Boxed, vec![r(2), r(1)])]),
+		c(Boxed, vec![Spec::OW(0), r(0)]),
+		c(Retry, vec![r(0), Spec::OW(0)]),
+		Spec::Pois(Box::new(c(Retry, vec![r(2), r(0)]))),
+		r(1),
+	];
+	let mut out = vec![];
+	for policy in POLICIES {
+		for i in 0..specs.len() {
+			for j in i..specs.len() {
+				for k in j..specs.len() {
+					for modes in [[true, true, true], [true, false, true], [false, true, false]] {
+						if policy == Policy::WP && modes.iter().all(|w| *w) {
+							continue;
+						}
+						let ss = [&specs[i], &specs[j], &specs[k]];
+						if ss.iter().zip(modes.iter()).any(|(s, w)| !*w && !s.sharable()) {
+							continue;
+						}
+						out.push(Program { specs: ss.iter().map(|s| (*s).clone()).collect(), threads: (0..3).map(|t| vec![acq(t, modes[t], Flavour::Guard, body)]).collect(), policy, name: "N3".into(), menu: vec![] });
+					}
+				}
+			}
+		}
+	}
+	out
+}
